@@ -65,7 +65,7 @@ ASSUMPTIONS = [
 ESSENTIAL_LABELS = {'all': ['recycle', 'multi_cross', 'to_outlet',
                             'outlet_delete', 'return', 'inactive_stage',
                             'oblique', 'axis', 'dim1', 'dim2', 'dim3',
-                            'copy_all', 'copy_list', 'ghosts',
+                            'copy_all', 'copy_list', 'ghosts', 'long_step',
                             'fluid_starts_empty']}
 SHARD_TIMEOUT = {'quick': 1500, 'thorough': 6 * 3600}
 
@@ -96,7 +96,8 @@ DIRS = {
 @st.composite
 def step_strategy(draw):
     return dict(
-        frac=draw(st.sampled_from([0.5, 0.25, 0.9, 0.125, 0.7])),
+        frac=draw(st.sampled_from([0.5, 0.25, 0.9, 0.125, 0.7, 0.5, 0.25,
+                                   1.6, 2.4])),
         stage=draw(st.sampled_from([2, 2, 2, 1, 3])),
         flip=draw(st.sampled_from([None, None, None, [2, 0], [2, 1], [3, 1],
                                    [1, 0]])))
@@ -588,7 +589,14 @@ def run_history(case):
         flip = st_.get('flip')
         if flip:
             labels.add('flip')
-        frac = min(st_['frac'], max(0.0, 0.95 - cum))
+        if st_['frac'] > 1.0:
+            # a long step: the fastest particles advance by more than the
+            # shortest zone length between two updates (the statement
+            # quantifies over all step sizes)
+            frac = st_['frac']
+            labels.add('long_step')
+        else:
+            frac = min(st_['frac'], max(0.0, 0.95 - cum))
         cum += frac
         dt = frac * Lmin / vmax
         for m in (mI, mF, mO):
